@@ -62,29 +62,30 @@ Definition rif {A} (c : res bool) (t e : res A) : res A :=
   match c with Ok true => t | Ok false => e | Err x => Err x | OutOfFuel => OutOfFuel end.
 
 (* ---------------------------------------------------------------- equality *)
-Definition str_eqb (a b : str) : bool :=
-  (fix go (a b : str) : bool :=
-     match a, b with
-     | [], [] => true
-     | x :: a', y :: b' => N.eqb x y && go a' b'
-     | _, _ => false
-     end) a b.
+Fixpoint str_eqb (a b : str) : bool :=
+  match a, b with
+  | [], [] => true
+  | x :: a', y :: b' => N.eqb x y && str_eqb a' b'
+  | _, _ => false
+  end.
+
+Definition list_eqb {A : Type} (f : A -> A -> bool) : list A -> list A -> bool :=
+  fix go (l1 l2 : list A) {struct l1} : bool :=
+    match l1, l2 with
+    | [], [] => true
+    | x :: l1', y :: l2' => f x y && go l1' l2'
+    | _, _ => false
+    end.
 
 Fixpoint pyval_eqb (a b : pyval) {struct a} : bool :=
-  let fix list_eqb (l1 l2 : list pyval) {struct l1} : bool :=
-      match l1, l2 with
-      | [], [] => true
-      | x :: l1', y :: l2' => pyval_eqb x y && list_eqb l1' l2'
-      | _, _ => false
-      end in
   match a, b with
   | PNone, PNone => true
   | PInt x, PInt y => x =? y
   | PFlt x, PFlt y => flt_eqb x y
   | PStr x, PStr y => str_eqb x y
-  | PList x, PList y => list_eqb x y
-  | PTuple x, PTuple y => list_eqb x y
-  | PObj k f x, PObj k' f' y => cls_eqb k k' && pyval_eqb f f' && list_eqb x y
+  | PList x, PList y => list_eqb pyval_eqb x y
+  | PTuple x, PTuple y => list_eqb pyval_eqb x y
+  | PObj k f x, PObj k' f' y => cls_eqb k k' && pyval_eqb f f' && list_eqb pyval_eqb x y
   | _, _ => false
   end.
 
